@@ -30,24 +30,30 @@ const (
 
 // Beh is what a Before/Action/After does
 type Beh struct {
-	Kind    int
-	Code    int // exit status for BehExit
-	Spin    int // the hook first yields the processor this many times (a slow interceptor)
-	PanKind int // what BehPanic raises: 0 *PanicValue, 1 an error value, 2 a runtime error (nil map write), 3 a string
+	Kind int
+	Code int // exit status for BehExit
+	Spin int // the hook first yields the processor this many times (a slow interceptor)
+	// Deferred: the hook raises its value from a deferred call while another value (a panic for BehExit, an Exit for
+	// BehPanic) is already in flight inside the same hook
+	Deferred bool
+	PanKind  int // what BehPanic raises: 0 *PanicValue, 1 an error value, 2 a runtime error (nil map write), 3 a string
 }
 
 // Cmd is a command of the tree
 type Cmd struct {
-	ID       int
-	Aliases  []string
-	Prog     *Prog // Spec "" = no spec given
-	Kids     []*Cmd
-	Parent   *Cmd
-	Before   Beh
-	Action   Beh
-	After    Beh
-	LongDesc string
-	Hidden   bool
+	// EnvOnlyOpt: the command also declares an option without any name (it can only be set through its environment
+	// variable); it is an option all the same
+	EnvOnlyOpt bool
+	ID         int
+	Aliases    []string
+	Prog       *Prog // Spec "" = no spec given
+	Kids       []*Cmd
+	Parent     *Cmd
+	Before     Beh
+	Action     Beh
+	After      Beh
+	LongDesc   string
+	Hidden     bool
 	// VersionNames (root only): the names given to app.Version when App.Version is set (default "V version")
 	VersionNames string
 	// InAction, when set, is called from inside the Action (after the snapshot): nested or cooperating applications
@@ -70,7 +76,9 @@ type App struct {
 	Root    *Cmd
 	Policy  flag.ErrorHandling
 	Version bool // declares app.Version(<names>, VersionText)
-	Builtin bool // declare with the built-in Bool/String/Strings types instead of recording custom types
+	// VersionStr, when set, is declared instead of VersionText (an empty string, an indented multi-line banner)
+	VersionStr *string
+	Builtin    bool // declare with the built-in Bool/String/Strings types instead of recording custom types
 	// ArgsFirst: every command declares its arguments before its options
 	ArgsFirst bool
 	// PolicyLate: the policy is assigned to the app after all declarations instead of right after cli.App(): commands
@@ -284,7 +292,11 @@ func buildApp(a *App, o *Obs, setEnv *[]string) (*cli.Cli, map[int]*recs, func(c
 		app.ErrorHandling = a.Policy
 	}
 	if a.Version {
-		app.Version(a.Root.VersionOptNames(), VersionText)
+		vt := VersionText
+		if a.VersionStr != nil {
+			vt = *a.VersionStr
+		}
+		app.Version(a.Root.VersionOptNames(), vt)
 	}
 	all := map[int]*recs{}
 	var mkHook func(t *Cmd, tag string, b Beh, snapshot bool) func()
@@ -309,8 +321,7 @@ func buildApp(a *App, o *Obs, setEnv *[]string) (*cli.Cli, map[int]*recs, func(c
 					t.InAction()
 				}
 			}
-			switch b.Kind {
-			case BehPanic:
+			raise := func() {
 				switch b.PanKind {
 				case 1:
 					e := fmt.Errorf("error raised by %s", name)
@@ -327,7 +338,21 @@ func buildApp(a *App, o *Obs, setEnv *[]string) (*cli.Cli, map[int]*recs, func(c
 				pv := &PanicValue{Hook: name}
 				o.PanVals[name] = pv
 				panic(pv)
+			}
+			switch b.Kind {
+			case BehPanic:
+				if b.Deferred {
+					// the value is raised by a deferred function while an Exit is already in flight: it is the most recent one
+					defer raise()
+					cli.Exit(177)
+				}
+				raise()
 			case BehExit:
+				if b.Deferred {
+					// `defer cli.Exit(n)` in a hook that then panics: the Exit is raised last
+					defer cli.Exit(b.Code)
+					panic("raised before the deferred Exit of " + name)
+				}
 				cli.Exit(b.Code)
 			}
 		}
@@ -340,6 +365,9 @@ func buildApp(a *App, o *Obs, setEnv *[]string) (*cli.Cli, map[int]*recs, func(c
 		rs := &recs{o: map[*OptDecl]*Rec{}, a: map[*ArgDecl]*Rec{}, sbo: map[*OptDecl]*bool{}, sba: map[*ArgDecl]*bool{}, bo: map[*OptDecl]func() []string{}, ba: map[*ArgDecl]func() []string{}}
 		all[t.ID] = rs
 		declOpts := func() {
+			if t.EnvOnlyOpt {
+				c.String(cli.StringOpt{Name: "", EnvVar: "VPE_ENV_ONLY_OPTION", Desc: "settable through the environment only"})
+			}
 			for i, od := range t.Prog.Opts {
 				env := ""
 				if od.EnvSet {
